@@ -638,6 +638,28 @@ pub struct JitterGen<F: Fn() -> u64 + Send + Sync + Clone + 'static> {
     script: Arc<TimerScript>,
     /// Display text of the error the last test_timer call returned
     last_err_text: Option<String>,
+    /// duplicates the generator by plain copy if its type is `Copy` (decided where the concrete timer
+    /// type is known, by autoref dispatch)
+    copy_fn: Option<fn(&JitterRng<F>) -> Option<JitterRng<F>>>,
+}
+
+/// autoref-based dispatch: `(&Dup(&x)).dup()` is a plain copy when `T: Copy`, None otherwise
+pub struct Dup<'a, T>(pub &'a T);
+pub trait DupViaCopy<T> {
+    fn dup(&self) -> Option<T>;
+}
+impl<'a, T: Copy> DupViaCopy<T> for Dup<'a, T> {
+    fn dup(&self) -> Option<T> {
+        Some(*self.0)
+    }
+}
+pub trait DupNone<T> {
+    fn dup(&self) -> Option<T>;
+}
+impl<'a, T> DupNone<T> for &Dup<'a, T> {
+    fn dup(&self) -> Option<T> {
+        None
+    }
 }
 
 impl<F: Fn() -> u64 + Send + Sync + Clone + 'static> JitterOps for JitterGen<F> {
@@ -702,7 +724,12 @@ impl<F: Fn() -> u64 + Send + Sync + Clone + 'static> Gen for JitterGen<F> {
         let rng = self.rng.clone();
         // the cursor the cloned timer reads from (the clone of the closure cloned its Cursor)
         let script = LAST_FORK.with(|l| l.borrow_mut().take()).unwrap_or_else(|| self.script.clone());
-        Box::new(JitterGen { rng, script, last_err_text: None })
+        Box::new(JitterGen { rng, script, last_err_text: None, copy_fn: self.copy_fn })
+    }
+    fn bitwise_copy_box(&self) -> Option<Box<dyn Gen>> {
+        let f = self.copy_fn?;
+        let rng = f(&self.rng)?;
+        Some(Box::new(JitterGen { rng, script: self.script.clone(), last_err_text: None, copy_fn: self.copy_fn }))
     }
     fn clone_from_dyn(&mut self, src: &dyn Gen) {
         let o = src.as_any().downcast_ref::<JitterGen<F>>().expect("clone_from across types");
@@ -737,7 +764,7 @@ impl<F: Fn() -> u64 + Send + Sync + Clone + 'static> Gen for JitterGen<F> {
 
 fn make_jitter(script: Arc<TimerScript>, forking: bool) -> Box<dyn Gen> {
     let timer = timer_closure(Cursor { script: script.clone(), forking });
-    Box::new(JitterGen { rng: JitterRng::new_with_timer(timer), script, last_err_text: None })
+    Box::new(JitterGen { rng: JitterRng::new_with_timer(timer), script, last_err_text: None, copy_fn: None })
 }
 
 /// Zero-sized timers: three distinct `fn` item types reading from process-wide script slots.
@@ -758,9 +785,9 @@ fn zst_timer_2() -> u64 {
 fn make_jitter_zst(slot: usize, script: Arc<TimerScript>) -> Box<dyn Gen> {
     *ZST_SLOTS[slot].lock().unwrap() = Some(script.clone());
     match slot {
-        0 => Box::new(JitterGen { rng: JitterRng::new_with_timer(zst_timer_0), script, last_err_text: None }),
-        1 => Box::new(JitterGen { rng: JitterRng::new_with_timer(zst_timer_1), script, last_err_text: None }),
-        _ => Box::new(JitterGen { rng: JitterRng::new_with_timer(zst_timer_2), script, last_err_text: None }),
+        0 => Box::new(JitterGen { rng: JitterRng::new_with_timer(zst_timer_0), script, last_err_text: None, copy_fn: Some(|r| (&Dup(r)).dup()) }),
+        1 => Box::new(JitterGen { rng: JitterRng::new_with_timer(zst_timer_1), script, last_err_text: None, copy_fn: Some(|r| (&Dup(r)).dup()) }),
+        _ => Box::new(JitterGen { rng: JitterRng::new_with_timer(zst_timer_2), script, last_err_text: None, copy_fn: Some(|r| (&Dup(r)).dup()) }),
     }
 }
 
